@@ -165,6 +165,35 @@ class HistSat(Hist):
         chosen = list(range(k)) if sel is None else sel
         out_labels = [net.outputs[i] for i in chosen]
         self.judge_cnf(net, clauses, out_labels, 'tseytin')
+        # the caller queries the Cnf object, adds the unit clauses of one input assignment, and queries the same object
+        # again: "together with any total input assignment ... satisfiable exactly when all selected outputs are True"
+        if rng.random() < 0.35:
+            try:
+                S = self.m['sat']
+                assign, _ = net.std_assign()
+                val = net.lanes(assign, (1 << (1 << n)) - 1)
+                want = (1 << (1 << n)) - 1
+                for o in out_labels:
+                    want &= val[o]
+                r1 = S.is_satisfiable(cnf)
+                if bool(r1.answer) != bool(want):
+                    self.violate('C05', 'cnf-query', 'answer', f'is_satisfiable(cnf) = {r1.answer}; {bin(want).count("1")} assignments make the selected outputs True')
+                else:
+                    zeros = [j for j in range(1 << n) if not (want >> j) & 1]
+                    j = rng.choice(zeros) if zeros and rng.random() < 0.7 else rng.randrange(1 << n)
+                    for i in range(n):
+                        cnf.add_clause([(i + 1) if (j >> (n - 1 - i)) & 1 else -(i + 1)])
+                    r2 = S.is_satisfiable(cnf)
+                    if bool(r2.answer) != bool((want >> j) & 1):
+                        self.violate('C05', 'cnf-query', 'answer:after-adding-an-input-assignment',
+                                     f'after adding the unit clauses of input assignment #{j} to the same Cnf object the query answers {r2.answer}; '
+                                     f'the selected outputs are {"all True" if (want >> j) & 1 else "not all True"} there')
+                    else:
+                        self.res.stats.probes.bump('tseytin:cnf-object-queried-again-after-adding-an-assignment')
+            except ModelError:
+                pass
+            except Exception as e:  # noqa
+                self.violate('C05', 'cnf-query', f'raised:{exc_name(e)}', f'{exc_name(e)}: {e}')
         # the caller owns the returned Cnf and goes on using it (e.g. blocking clauses of an all-SAT loop)
         try:
             cnf.add_clause([1])
